@@ -439,6 +439,20 @@ func stepJobs(tier string) []Job {
 	return jobs
 }
 
+// nameJobs: the name-update step of C06 (five naming sources); quick: shapes with one host per MAC and 3 known-entry
+// shapes, thorough: shapes with <= 2 hosts per MAC and 6 known-entry shapes.
+func nameJobs(tier string) []Job {
+	h1, h2, ne := int64(1), int64(1), int64(3)
+	if tier == "thorough" {
+		h1, h2, ne = 2, 1, 6
+	}
+	var jobs []Job
+	for src := int64(0); src < 5; src++ {
+		jobs = append(jobs, Job{Pkg: "root", Func: "VerifC06Name", Args: []int64{src, h1, h2, ne}, SplitN: shapeCount(int(h1), int(h2)), Cfg: cfg(64, 900), Reach: []string{"stepped"}})
+	}
+	return jobs
+}
+
 func stepBounds(tier string) map[string]string {
 	sh := "no MAC entry; one entry with 1..3 hosts; two entries with 1 host each (19 shapes incl. every IPv4/IPv6 mix)"
 	if tier == "thorough" {
@@ -449,6 +463,12 @@ func stepBounds(tier string) map[string]string {
 		"steps":      "Parse+Notify of an IPv4 (34 B), ARP (42 B) or IPv6 (54 B) frame with every header field symbolic (own / router / multicast / client MACs, on-LAN / off-LAN / zero / link-local / global addresses by value); purge(now); DHCPv4Update(mac, on-LAN ip)",
 		"induction":  "one step from an arbitrary invariant state: invariant preserved + transition specification + notification contract => holds for histories of any length over these shapes",
 	}
+}
+
+func c06Bounds(tier string) map[string]string {
+	b := stepBounds(tier)
+	b["name step"] = "a name update from each of the five naming sources (DHCPv4, mDNS, SSDP, LLMNR, NBNS) for any tracked host (online or offline) followed by Notify and a drain, then a second Notify; known entry: name 0..2 arbitrary bytes (thorough: + model / OS / manufacturer 0..1), learned entry: name 0..2, model 0..1, OS and manufacturer 0..1 bytes, expiry present or absent; pre-state shapes with one host per MAC (thorough: <= 2 hosts per MAC)"
+	return b
 }
 
 func prefixFilter(prefix string, panics bool) func(Finding) bool {
@@ -468,13 +488,13 @@ func init() {
 	}
 	register(&Prop{ID: "C04", Jobs: stepJobs, Bounds: stepBounds, Assumptions: common, Filter: prefixFilter("C04:", false),
 		Technique: "inductive step by bounded symbolic execution from symbolic invariant states; transition specification (reference model over (MAC, IP, online) triples) asserted by SMT",
-		Outside:   []string{"more than 6 tracked hosts / 2 MAC entries", "IPv6 global-unicast pre-existing hosts", "the probe goroutine's frames (C07)", "name updates"}})
+		Outside:   []string{"more than 6 tracked hosts / 2 MAC entries", "IPv6 global-unicast pre-existing hosts", "the probe goroutine's frames (C07)", "name updates (they change no triple; the name step is checked under C06)"}})
 	register(&Prop{ID: "C05", Jobs: stepJobs, Bounds: stepBounds, Assumptions: common, Filter: prefixFilter("C05:", true),
 		Technique: "inductive step by bounded symbolic execution: representation invariant assumed on a symbolic pre-state, one operation executed from the real SSA, invariant and PrintTable self-check asserted",
 		Outside:   []string{"Capture / Release / SetDHCPv4IPOffer (they only touch MAC-entry scalars)", "quiescent points of concurrent executions (C09)"}})
-	register(&Prop{ID: "C06", Jobs: stepJobs, Bounds: stepBounds, Assumptions: common, Filter: prefixFilter("C06:", false),
+	register(&Prop{ID: "C06", Jobs: func(tier string) []Job { return append(stepJobs(tier), nameJobs(tier)...) }, Bounds: c06Bounds, Assumptions: common, Filter: prefixFilter("C06:", false),
 		Technique: "inductive step by bounded symbolic execution: notification contract (who is notified, in which order, with which content, nothing left pending) asserted on the drained channel after each step",
-		Outside:   []string{"notifications caused by name updates", "notification channel overflow (precondition: drained after every step)", "eventual delivery for hosts that never send another frame (liveness)"}})
+		Outside:   []string{"name strings longer than 2 bytes", "notification channel overflow (precondition: drained after every step)", "eventual delivery for hosts that never send another frame (liveness)"}})
 	c10Jobs := func(tier string) []Job {
 		jobs := stepJobs(tier)
 		n := int64(40)
